@@ -4,8 +4,9 @@ Correspondence: dclab.features.emodulus.get_emodulus against Model/C05.v
 (get_emodulus with both routes) evaluated by vm_compute in exact rationals.
 The oracles of the model are supplied per case: the triangles scipy's
 Delaunay triangulation (qhull) gives for the normalised LUT around the query
-points, the pixelation offsets (exp) and the viscosities (exp/pow) computed
-by independent transcriptions of the documented formulas. Values agree within
+points, np.exp at the arguments of the pixelation offset, and the viscosities
+(exp/pow) computed by an independent transcription of the documented
+formulas. Values agree within
 1e-9 relative; NaN sets agree exactly except within 1e-9 (normalised units)
 of the hull of the LUT.
 
@@ -53,10 +54,12 @@ TRUSTED_BASE = [
     "(scipy.spatial.Delaunay on the same floats); theorems are relative to "
     "the triangulation; per run it is checked that the triangles handed to "
     "the model contain the query points in exact arithmetic",
-    "oracle delta: pixelation offset exp-sums (pxcorr.py), supplied to the "
-    "model as values computed by an independent transcription of the "
-    "documented formula; hypothesis delta_rescale (delta(lam*px, lam^k*x) = "
-    "delta(px, x)) is checked numerically against the real function",
+    "oracle exp: the pixelation offset (pxcorr.py) is modelled (pxdelta: "
+    "offset + three exponential decays); np.exp is an oracle, supplied as "
+    "math.exp at the exact arguments the model computes; theorems assume of "
+    "it only that it is a function of the number. The general theorems take "
+    "an arbitrary offset function delta with hypothesis delta_rescale, which "
+    "is proved for pxdelta and checked numerically on the real function",
     "oracle eta: viscosity models (exp/pow), supplied as values computed by "
     "an independent transcription of the documented formulas",
     "binary64 rounding is not modelled: model evaluates in Q, comparison "
@@ -728,7 +731,7 @@ def gen_corr_case(rng, L, n=None, builtin=False):
 def correspondence(run):
     rng = run.rng
     groups = []          # (Lut, use_dec, [cases])
-    nuser = 60 if run.thorough else 24
+    nuser = 200 if run.thorough else 36
     per = 8 if run.thorough else 6
     for c in load_corpus():
         if "x" in c and "check" not in c:
@@ -741,7 +744,7 @@ def correspondence(run):
     for name in names:
         L = builtin_lut(name)
         groups.append((L, True, [gen_corr_case(rng, L, n=3, builtin=True)
-                                 for _ in range(4 if run.thorough else 3)]))
+                                 for _ in range(8 if run.thorough else 4)]))
 
     # small (generated) tables travel with their cases, several tables per
     # coqc run; a built-in table is defined once in the header of its run
@@ -995,6 +998,15 @@ def chk_scalar_vs_array(sc, rng):
     m0 = dict(sc.med, temp=t)
     E0 = sc.f(med=m0)
     _, dist, cond, _ = sc.ref(med=m0)
+    # numpy scalar and 0-d array temperatures
+    for tv, nm in ((np.float64(t), "numpy.float64"),
+                   (np.array(t, dtype=float), "0-d ndarray")):
+        kw = dict(medium_kwargs(m0), temperature=tv)
+        E1 = sc.f(**kw)
+        r = close_outside_band(E0, E1, dist, cond)
+        if r:
+            return ("event %d: temperature %r as float gives %r, as %s "
+                    "gives %r" % (r[0], t, r[1], nm, r[2]))
     for m1 in (dict(sc.med, temp=[t] * n), dict(sc.med, temp=[t])):
         E1 = sc.f(med=m1)
         r = close_outside_band(E0, E1, dist, cond)
@@ -1349,7 +1361,7 @@ def oracle_cases(run):
                 case["rseed"] = rng.randrange(1 << 30)
                 out.append((case, kinds))
     # generated tables: many calls, few events
-    for k in range(500 if th else 120):
+    for k in range(1500 if th else 120):
         L = gen_user_lut(rng, dyadic=rng.random() < 0.3, nmax=60)
         for chk in names:
             if chk == "isoelastics" or (
@@ -1539,7 +1551,7 @@ def search(run, broken):
     oracle-only sweep on the real code."""
     import random
     rng = run.rng
-    for k in range(600 if run.thorough else 200):
+    for k in range(600 if run.thorough else 100):
         L = gen_user_lut(rng, dyadic=rng.random() < 0.3, nmax=60) \
             if k % 10 else builtin_lut(rng.choice(BUILTIN))
         for chk in CHECKS:
